@@ -302,6 +302,148 @@ func main() {
 			out.put("parse "+encStr(src), res, verdict("C10", c10), verdict("C08", panicOnly(res)))
 		}
 		out.close()
+	case "eval": // <seed> <n> <outdir>
+		seed, _ := strconv.ParseUint(os.Args[2], 10, 64)
+		n, _ := strconv.Atoi(os.Args[3])
+		out := openOut(os.Args[4])
+		meth := encMethods()
+		for i := 0; i < n; i++ {
+			r := NewRng(seed, uint64(i))
+			env := defaultEnv()
+			dataEnv(env)
+			var src, want, tag string
+			switch c := r.Intn(100); {
+			case c < 45: // operators (C09, C11)
+				g := &exGen{r: r, env: env, newlines: r.Chance(20)}
+				e := g.Gen("?", 1+r.Intn(6))
+				src = g.Print(e)
+				tag = "ops"
+				if g.rightTer {
+					tag = "ops-right-ternary"
+				}
+				v, ok := RefEval(e, env)
+				want = refLine(v, ok, env)
+			case c < 70: // failure propagation and short circuit (C12)
+				g := &exGen{r: r, env: env, instr: true}
+				e := g.Gen("?", 1+r.Intn(5))
+				src = g.Print(e)
+				tag = "instr"
+				if g.rightTer {
+					tag = "instr-right-ternary"
+				}
+				v, ok := RefEval(e, env)
+				want = refLine(v, ok, env)
+			default: // access paths (C13)
+				pg := &pathGen{r: r, env: env}
+				t, v, class := pg.genPath()
+				src = t
+				tag = "path"
+				if class == "" {
+					want = "OK " + encResult(newValEnc(), v) + " LOG "
+				} else if class == "parse" {
+					want = "ERR parse"
+				} else {
+					want = "ERR " + class + " LOG "
+				}
+			}
+			out.count(tag)
+			res := implEval(src, env)
+			why := ""
+			if res != want {
+				// NaN results and -0 are compared by bits after canonicalisation; anything else is a failure
+				why = fmt.Sprintf("expression %q: implementation %s, reference %s", src, res, want)
+			}
+			var c09, c11, c12, c13 string
+			switch {
+			case strings.HasPrefix(tag, "ops"):
+				c09 = why
+				if tag == "ops-right-ternary" && why != "" {
+					c09 = "KF-ternary-right-assoc " + why
+				}
+				if strings.ContainsAny(src, "<>=!") {
+					c11 = c09
+				}
+			case strings.HasPrefix(tag, "instr"):
+				c12 = why
+				if tag == "instr-right-ternary" && why != "" {
+					c12 = "KF-ternary-right-assoc " + why
+				}
+			default:
+				c13 = why
+			}
+			out.put(fmt.Sprintf("eval %s %s %s", meth, encEnv(env), encStr(src)), res,
+				verdict("C09", c09), verdict("C11", c11), verdict("C12", c12), verdict("C13", c13), verdict("C08", panicOnly(res)))
+		}
+		out.close()
+	case "rel": // <seed> <n> <outdir>
+		seed, _ := strconv.ParseUint(os.Args[2], 10, 64)
+		n, _ := strconv.Atoi(os.Args[3])
+		out := openOut(os.Args[4])
+		meth := encMethods()
+		for i := 0; i < n; i++ {
+			r := NewRng(seed, uint64(i))
+			src, env, c11 := genRelCase(r)
+			res := implEval(src, env)
+			out.count(strings.Fields(src)[1])
+			out.put(fmt.Sprintf("eval %s %s %s", meth, encEnv(env), encStr(src)), res, verdict("C11", c11), verdict("C08", panicOnly(res)))
+		}
+		out.close()
+	case "strlit": // <seed> <n> <outdir>: exhaustive strings of length <= 3 first, random beyond
+		seed, _ := strconv.ParseUint(os.Args[2], 10, 64)
+		n, _ := strconv.Atoi(os.Args[3])
+		out := openOut(os.Args[4])
+		meth := encMethods()
+		env := defaultEnv()
+		encE := encEnv(env)
+		idx := 0
+		for i := 0; i < n; i++ {
+			r := NewRng(seed, uint64(i))
+			var s string
+			if e, ok := litString(idx / 3); ok {
+				s = e
+				out.count("exhaustive")
+			} else {
+				s = ""
+				k := 4 + r.Intn(12)
+				pool := append([]rune{}, litAlphabet...)
+				pool = append(pool, 'b', 'x', '0', '7', 'u', 'n', 0x1F600, 0x7f, 0x85, 0x2028, '/', '*', ';', '<', '>', '&')
+				for j := 0; j < k; j++ {
+					s += string(pool[r.Intn(len(pool))])
+				}
+				out.count("random")
+			}
+			var lit string
+			style := idx % 3
+			idx++
+			switch style {
+			case 0:
+				lit = quoteWith(r, s, '"')
+			case 1:
+				lit = quoteWith(r, s, '\'')
+			default:
+				l, ok := quoteRaw(s)
+				if !ok {
+					lit = quoteWith(r, s, '"')
+				} else {
+					lit = l
+				}
+			}
+			src := lit
+			want := "OK s" + encRunes(s) + " LOG "
+			if r.Chance(20) {
+				src = lit + " + ''"
+			} else if r.Chance(10) {
+				src = "len(" + lit + ")"
+				want = fmt.Sprintf("OK i0:%d LOG ", len(s))
+			}
+			res := implEval(src, env)
+			c14 := ""
+			if res != want {
+				c14 = fmt.Sprintf("literal %s of string %q: %s, expected %s", src, s, res, want)
+			}
+			out.put(fmt.Sprintf("eval %s %s %s", meth, encE, encStr(src)), res, verdict("C14", c14), verdict("C08", panicOnly(res)))
+		}
+		out.close()
 	case "code": // <seed> <n> <outdir>
 		seed, _ := strconv.ParseUint(os.Args[2], 10, 64)
 		n, _ := strconv.Atoi(os.Args[3])
